@@ -87,7 +87,7 @@ def stub_sweeps(rng, K, quick):
     for n in lens:            # n interruptions, then success (only reached while n < K)
         t = [("fork", "ok")] + [("wait", "eintr", 0)] * min(n, K)
         if n < K:
-            t.append(("wait", rng.choice(["exited", "signaled"]), rng.choice([0, 1, 9])))
+            t.append(rng.choice([("wait", "exited", 0), ("wait", "exited", 1), ("wait", "signaled", 9), ("wait", "signaled", 15)]))
         execs.append(stub_exec([t, final("exited", 0)]))
     # interruptions split around a stop: the count is per test, not per wait
     for a in ([1, K - 2, K - 1] if quick else range(0, K)):
